@@ -33,7 +33,7 @@ type view struct {
 
 type caseJ struct {
 	Site     string   `json:"site"`
-	Mode     string   `json:"mode"` // forced | stress
+	Mode     string   `json:"mode"` // forced | live | stress
 	Yield    string   `json:"yield,omitempty"`
 	Variant  string   `json:"variant,omitempty"`
 	N        int      `json:"n"`
@@ -42,6 +42,7 @@ type caseJ struct {
 	Schedule string   `json:"schedule,omitempty"`
 	Acked    []int    `json:"acked,omitempty"`
 	Blocked  bool     `json:"blocked,omitempty"`
+	Hung     bool     `json:"hung,omitempty"`
 	Views    []view   `json:"views,omitempty"`
 	Extra    int      `json:"extra,omitempty"`
 }
@@ -56,7 +57,9 @@ type prepared struct {
 type siteDef struct {
 	name    string
 	variant string
-	yields  []string
+	family  string   // which part of the world the site uses (rebuilt after a deadlock)
+	yields  []string // yield points of the site's model: forced schedules compared with the model
+	live    []string // further yield points: forced schedules judged by the oracles only
 	prepare func(w *world, n int) prepared
 	stressN [2]int // n for quick / thorough
 	rounds  [2]int // stress rounds for quick / thorough
@@ -78,8 +81,13 @@ func coqIDs(xs []int) string {
 
 func coqCase(c caseJ) string {
 	mode := fmt.Sprintf("(Stress %d%%nat)", c.N)
-	if c.Mode == "forced" {
+	switch {
+	case c.Hung:
+		mode = fmt.Sprintf("(Hang %d%%nat %q)", c.N, c.Yield)
+	case c.Mode == "forced":
 		mode = fmt.Sprintf("(Forced %q %s)", c.Yield, lib.CoqBool(c.Blocked))
+	case c.Mode == "live":
+		mode = fmt.Sprintf("(Live %q %s)", c.Yield, lib.CoqBool(c.Blocked))
 	}
 	vs := make([]string, len(c.Views))
 	for i, v := range c.Views {
@@ -98,24 +106,48 @@ func ackedOf(ok []bool) []int {
 	return a
 }
 
+var hungSites = map[string]bool{}
+
+var deadlocks int // episodes that ended in a deadlock: their goroutines stay blocked, so no clean shutdown
+
 func runEpisode(w *world, s *siteDef, c caseJ) caseJ {
 	rng := lib.NewRand(c.Seed)
-	p := s.prepare(w, c.N)
+	var p prepared
+	if c.Mode == "live" {
+		p = livePrepare(w, s, c.Yield)
+	} else {
+		p = s.prepare(w, c.N)
+	}
 	c.Requests = p.desc
 	switch c.Mode {
-	case "forced":
+	case "forced", "live":
 		res := runForced(c.Yield, p.reqs[0], p.reqs[1])
 		if !res.reached {
 			fatal("site %s: request 1 finished without passing yield point %s", s.name, c.Yield)
 		}
 		c.Blocked = res.blocked
+		c.Hung = res.hung
 		c.Acked = ackedOf([]bool{res.okA, res.okB})
 		c.Schedule = fmt.Sprintf("request 1 held at %s; request 2 %s; request 1 released", c.Yield,
 			map[bool]string{false: "ran to its end", true: "could not finish (waited on a mutex)"}[res.blocked])
+		if res.hung {
+			c.Acked = nil
+			c.Schedule += fmt.Sprintf("; neither request finished within %s: deadlock", hungAfter)
+		}
 	default:
-		ok := runStress(rng, p.reqs)
+		ok, hung := runStress(rng, p.reqs)
+		c.Hung = hung
 		c.Acked = ackedOf(ok)
 		c.Schedule = fmt.Sprintf("%d goroutines, random start skews and yield-point delays (seed %d)", c.N, c.Seed)
+		if hung {
+			c.Schedule += fmt.Sprintf("; the requests did not all finish within %s: deadlock", hungAfter)
+		}
+	}
+	if c.Hung {
+		// the blocked goroutines keep their mutexes: give the site's family a fresh repo
+		deadlocks++
+		w.rebuild(s.family)
+		return c
 	}
 	c.Views, c.Extra = p.observe(c.Acked)
 	for i := range c.Views {
@@ -125,7 +157,7 @@ func runEpisode(w *world, s *siteDef, c caseJ) caseJ {
 }
 
 func key(c caseJ) string {
-	b, _ := json.Marshal([]interface{}{c.Site, c.Variant, c.Mode, c.Yield, c.N, c.Acked, c.Views, c.Extra, c.Blocked})
+	b, _ := json.Marshal([]interface{}{c.Site, c.Variant, c.Mode, c.Yield, c.N, c.Acked, c.Views, c.Extra, c.Blocked, c.Hung})
 	return string(b)
 }
 
@@ -137,7 +169,14 @@ func main() {
 		"From Coq Require Import String.", "Local Open Scope string_scope.", "Local Open Scope N_scope.")
 	dv.Quiet()
 	dv.Open()
-	defer dv.Close()
+	shutdown := func() {
+		if deadlocks > 0 {
+			// goroutines blocked for ever hold repo mutexes that a clean shutdown would wait for
+			os.Stdout.Sync()
+			os.Exit(0)
+		}
+		dv.Close()
+	}
 	ctl.install(lib.NewRand(o.Seed ^ 0x5bd1e995))
 	w := newWorld()
 	sites := allSites()
@@ -169,6 +208,12 @@ func main() {
 		} else if c.Blocked {
 			run.Count("forced-blocked:" + s.name)
 		}
+		if c.Hung {
+			run.Count("deadlock:" + s.name)
+			if c.Mode == "stress" {
+				hungSites[s.name] = true
+			}
+		}
 	}
 
 	if o.Replay != "" {
@@ -187,6 +232,7 @@ func main() {
 		}
 		add(s, caseJ{Site: c.Site, Variant: c.Variant, Mode: c.Mode, Yield: c.Yield, N: c.N, Seed: c.Seed})
 		run.Finish("c11case", "replay", tail)
+		shutdown()
 		return
 	}
 
@@ -206,11 +252,22 @@ func main() {
 	}
 	for i := range sites {
 		s := &sites[i]
+		for _, y := range s.live {
+			add(s, caseJ{Site: s.name, Variant: s.variant, Mode: "live", Yield: y, N: 2, Seed: rng.U64()})
+		}
+	}
+	for i := range sites {
+		s := &sites[i]
 		rounds := s.rounds[ti]
 		if o.N > 0 {
 			rounds = o.N
 		}
 		for k := 0; k < rounds; k++ {
+			if hungSites[s.name] {
+				// every further round would most likely wait for the same deadlock again
+				run.Count("stress-rounds-skipped-after-deadlock:" + s.name)
+				continue
+			}
 			n := s.stressN[ti]
 			if k%3 == 1 && n > 2 {
 				n = 2 + rng.Intn(n-1)
@@ -223,6 +280,7 @@ func main() {
 	run.Finish("c11case",
 		"per read-modify-write site: forced two-request schedules through each yield point (request 1 held between read and write, request 2 run, request 1 released) and stress episodes of 2..N goroutines with random start skews and random delays at the yield points, on one key / annotation block+tag+label / target body / neuron id / parent node; distinct = distinct (site, mode, n, acknowledged set, per-view effect sets)",
 		tail)
+	shutdown()
 }
 
 const tail = `
